@@ -8,6 +8,7 @@ import RainModel.Lemmas.TrackerWire
 C16 — tracker tier failover cycles forever; tracker replies cannot crash the client.
 Property theorems only; helper lemmas live in `Lemmas/`.
 -/
+set_option linter.unusedSimpArgs false
 namespace Rain.Props.C16
 open Rain
 
@@ -264,13 +265,7 @@ theorem udp_connect_reply_total (buf : Bytes) :
       · rename_i h1 h2
         exact ⟨by omega, by simpa using h2⟩
 
-/-- `httptracker.Announce` reads the body through `io.LimitReader(resp.Body, maxResponseLength)`
-after refusing a declared `Content-Length` above the limit. -/
-def httpBodyRead (limit : Nat) (contentLength : Option Nat) (body : List Nat) : Option (List Nat) :=
-  match contentLength with
-  | some n => if n > limit then none else some (body.take limit)
-  | none => some (body.take limit)
-
+open Rain.TrackerWire in
 /-- **http_read_le_limit.** Never more than the configured limit is read from a tracker's reply. -/
 theorem http_read_le_limit (limit : Nat) (cl : Option Nat) (body data : List Nat)
     (h : httpBodyRead limit cl body = some data) : data.length ≤ limit := by
@@ -281,5 +276,34 @@ theorem http_read_le_limit (limit : Nat) (cl : Option Nat) (body data : List Nat
     simp at h
     obtain ⟨_, rfl⟩ := h
     simp [List.length_take]; omega
+
+open Rain.TrackerWire in
+/-- **http_dict_peers_have_ip.** Every address produced from a dictionary-model peer list carries
+the IP that `net.ParseIP` returned for its entry — never an address without IP. -/
+theorem http_dict_peers_have_ip (ents : List (Option Bytes × Nat)) :
+    ∀ p ∈ dictPeers ents, ∃ e ∈ ents, e.1 = some p.ip ∧ e.2 = p.port := by
+  induction ents with
+  | nil => intro p hp; simp [dictPeers] at hp
+  | cons e r ih =>
+    obtain ⟨ip?, port⟩ := e
+    intro p hp
+    cases ip? with
+    | none =>
+      simp only [dictPeers] at hp
+      obtain ⟨e, he, h⟩ := ih p hp
+      exact ⟨e, by simp [he], h⟩
+    | some ip =>
+      simp only [dictPeers, List.mem_cons] at hp
+      rcases hp with rfl | hp
+      · exact ⟨(some ip, port), by simp, rfl, rfl⟩
+      · obtain ⟨e, he, h⟩ := ih p hp
+        exact ⟨e, by simp [he], h⟩
+
+open Rain.TrackerWire in
+/-- The historical defect: the pre-fix parser turned an unparsable `ip` into an address with an
+empty IP (printed `:6881`, dialled as the local host). -/
+theorem http_dict_stale_counterexample :
+    dictPeersStale [(none, 6881)] = [{ ip := [], port := 6881 }] ∧ dictPeers [(none, 6881)] = [] := by
+  constructor <;> rfl
 
 end Rain.Props.C16
